@@ -53,7 +53,7 @@ def run(ck, F, E):
     # ---- (1) raw readers
     methods = [b for b in F.bodies.values() if b.crate == "abasic_core" and
                (b.self_adt == TOK or "tokenizer::Tokenizer as" in b.path) and b.kind == "AssocFn"]
-    ck.floor("C12.Tokenizer methods", len(methods), 18)
+    ck.floor("C12.Tokenizer methods", len(methods), 12)
     for b in methods:
         nm = b.path.split("::")[-1]
         ra = raw_access(b)
@@ -96,6 +96,38 @@ def run(ck, F, E):
             if somes_false and not somes_true and len(all_somes) == len(somes_false):
                 # the tested byte is the byte returned
                 ok = True
+        if not ok:
+            # the same filter written as `bytes[index..].iter().position(|&b| !is_basic_whitespace(b))`: the byte handed out is
+            # the element at the found position of that very slice, and the closure is the negated blank test
+            for pc in lc.calls():
+                if pc.callee.split("::")[-1] != "position":
+                    continue
+                clos = [F.bodies[p] for p in sorted(F.bodies) if p.startswith(lc.path + "::{closure")]
+                neg_test = False
+                for cb in clos:
+                    tests = cb.calls_to("LineCruncher::is_basic_whitespace")
+                    for (b_, i_, pl_, rv_, sp_) in cb.assigns():
+                        if pl_["local"] == 0 and not pl_["proj"]:
+                            e_ = strip_expr(cb.rv_expr(rv_))
+                            if e_[0] == "unop" and e_[1] == "Not" and tests and any(len(x) > 3 and x[3] is tests[0] for x in expr_calls(e_)):
+                                neg_test = True
+                all_somes = [a for a in aggregates(lc, "core::option::Option", "Some") if a[1]["local"] == 0] if False else \
+                    [(b_, i_, pl_, rv_, sp_) for (b_, i_, pl_, rv_, sp_) in aggregates(lc, "core::option::Option", "Some")]
+                good = bool(all_somes)
+                some_arm = None
+                for sb_ in sorted(lc.reachable()):
+                    info_ = lc.switch_info(sb_)
+                    if info_ and info_[3] and set(info_[3].values()) == {"None", "Some"} and \
+                            any(len(x) > 3 and x[3] is pc for x in expr_calls(info_[0])):
+                        for v_, n_ in info_[3].items():
+                            if n_ == "Some":
+                                some_arm = info_[1].get(v_, info_[2])
+                for (b_, i_, pl_, rv_, sp_) in all_somes:
+                    # a byte is handed out only where position() found one
+                    if some_arm is None or not (b_ == some_arm or lc.dominates(some_arm, b_)):
+                        good = False
+                if neg_test and good:
+                    ok = True
         ck.require(ok, "C12:FILTER:returns-non-blank", "cruncher filter",
                    "a byte is returned only on the false arm of is_basic_whitespace(byte)",
                    "LineCruncher::next can return a blank (or returns bytes without testing them)", lc.span)
